@@ -164,6 +164,7 @@ def check(res):
                        "files": [k for k in again if again[k] != after.get(k)][:5]})
     # 4. generator output for the legacy and the new spelling is byte-identical
     gen_equal = spelling_equivalence(res, gv, rng)
+    legacy_certificates(res)
     res.coverage.update({
         "evaluations": len(files) * 3 + gen_equal, "distinct_nontrivial": sum(1 for c, _ in expect.values() if c > 0),
         "rule": "synthesized Go files (legacy/new/mixed spellings, 5 indentations, LF/CRLF/mixed, with and without final newline, "
@@ -172,6 +173,34 @@ def check(res):
         "legacy_markers_in_corpus": total_markers, "files": len(files), "mismatching_files": mism,
         "samples": [{"file": "p/f0.go", "first_lines": [repr(x) for x in files["p/f0.go"].split(b"\n")[:12]]}],
     })
+
+
+def legacy_certificates(res):
+    """declarations written in the legacy spelling (with parameters that contain ' +', '=' and '+') through the certificate
+    pipeline: the emitted file must equal gen_file of the model, whose marker parser is the one C18_spelling is about"""
+    import genprop
+    from synth import SLICE, basic, case, fld, scenario, set_coll, set_int, set_str, struct
+    s, i64 = basic("string"), basic("int")
+    docs_a = ["// +govalid:enum=a +b,c=d, e +f", "// +govalid:minlength=1"]
+    fields = [fld("A", docs_a, s), fld("B", ["// +govalid:gt=1", "//govalid:lte=10", "// +govalid:required"], i64),
+              fld("C", ["// +govalid:maxitems=2", "// +govalid:required"], SLICE),
+              fld("D", ["// +govalid:enum=x +y", "//govalid:enum= +z, +w"], s),        # a later marker replaces the earlier one
+              fld("N", [], nested=[fld("E", ["// +govalid:length=3", "// +govalid:alpha"], s)])]
+    cases = [case([]), case([set_str("A", b"a +b"), set_int("B", 5), set_coll("C", False, 1), set_str("D", b"+z"), set_str("N.E", b"abc")]),
+             case([set_str("A", b"ab"), set_int("B", 11), set_coll("C", False, 3), set_str("D", b"x +y"), set_str("N.E", b"ab1")]),
+             case([set_str("A", b"c=d"), set_int("B", 1), set_coll("C", True, 0), set_str("D", b"+w"), set_str("N.E", b"")])]
+    legacy = struct("L", fields, cases)
+    import copy
+    new = copy.deepcopy(legacy)
+    new["name"] = "M"
+
+    def respell(fs):
+        for f in fs:
+            f["doc"] = [d.replace("// +govalid:", "//govalid:") for d in f["doc"]]
+            if "nested" in f:
+                respell(f["nested"])
+    respell(new["fields"])
+    genprop.run(res, "C18", None, {"scenarios": [scenario("c18legacy", [legacy, new])]}, tag="c18gen")
 
 
 def spelling_equivalence(res, gv, rng):
